@@ -638,6 +638,8 @@ func preamble(profile string, emit func(string, ...any)) int {
 		case "C09":
 			total += genOwnAddrCase(fix, emit)
 			total += genReloadCase(fix, emit)
+			total += genAllowCase(fix, emit)
+			total += genRelayCase(fix, emit)
 		case "C10":
 			total += genDelayedStage2Case(fix, emit)
 		case "C31":
@@ -660,6 +662,10 @@ func gen(r *hlib.Rand, n int, tier, profile string, emit func(string, ...any)) {
 			total += genOwnAddrCase(r, emit)
 		case profile == "C09" && k < 36, profile != "C09" && k < 6:
 			total += genReloadCase(r, emit)
+		case profile == "C09" && k < 58:
+			total += genAllowCase(r, emit)
+		case profile == "C09" && k < 80:
+			total += genRelayCase(r, emit)
 		case profile == "C10" && k < 55, profile != "C10" && k < 9:
 			total += genDelayedStage2Case(r, emit)
 		case profile == "C31" && k < 60, profile != "C31" && k < 12:
